@@ -19,12 +19,19 @@ for d in sorted(glob.glob(root + '/C*-m*')):
                 run.append(m.group(1))
                 if m.group(2) == '1' and ' 0 violation lines' not in line:
                     det.append(m.group(1))
+    detT = []
+    if os.path.exists(d + '/detection_thorough.txt'):
+        for line in open(d + '/detection_thorough.txt'):
+            m = re.search(r'check=(C\d+) rc=(\d+)', line)
+            if m and m.group(2) == '1' and ' 0 violation lines' not in line:
+                detT.append(m.group(1))
     meta['detected_by'] = det
+    meta['detected_by_thorough'] = detT
     meta['checks_run'] = run
     if meta:
         json.dump(meta, open(d + '/meta.json', 'w'), indent=1, sort_keys=True)
     needs = (meta.get('needs') or meta.get('manifest') or '').replace('|', '/').replace('\n', ' ')[:170]
-    rows.append('| %s | %s | %s | %s | %s |' % (sid, prop, ' '.join(run), ' '.join(det) or 'NONE', needs))
+    rows.append('| %s | %s | %s | %s | %s |' % (sid, prop, ' '.join(run), ' '.join(det) or (('thorough tier: ' + ' '.join(detT)) if detT else 'NONE'), needs))
 head = '''# Seeded changes and the checks that catch them
 
 Each row: a change produced by an independent sub-agent from the property text alone (waves m1/m2: "realistic
@@ -32,7 +39,8 @@ breaking change"; waves m3/m4: "subtle, hard to hit: rare shapes / dtypes / boun
 shared objects, cooperating edits"), confirmed by `tools/confirm_mut.sh` (demo passes on the original tree, fails
 with the patch; the pinned suite passes unchanged), then applied to a scratch worktree of /repo
 (`tools/run_seeded.sh`, harness pointed at it by VERIF_REPO) and checked with `./check <id> quick`.
-`detected by` lists the checks that exited 1 with a VIOLATION line.
+`detected by` lists the checks that exited 1 with a VIOLATION line ("thorough tier:" when only
+`./check <id> thorough` does, `TIER=thorough tools/run_seeded.sh`).
 
 | seeded change | property | checks run | detected by | what it needs to manifest |
 |---|---|---|---|---|
@@ -40,6 +48,8 @@ with the patch; the pinned suite passes unchanged), then applied to a scratch wo
 open(root + '/RESULTS.md', 'w').write(head + '\n'.join(rows) + '\n')
 miss = [r for r in rows if '| NONE |' in r]
 own = [r for r in rows if r.split('|')[2].strip() not in r.split('|')[4].split()]
+thor = [r for r in rows if 'thorough tier:' in r]
+print('%d detected only by the thorough tier' % len(thor))
 print('%d seeded changes, %d undetected, %d not detected by the check of their own property' % (len(rows), len(miss), len(own)))
 for r in own:
     print('  ', r[:60])
